@@ -648,6 +648,69 @@ class Provenance:
             return out
         return [("other", expr)]
 
+    # ----- access-path roots: which parameter's object graph does `expr` point into (no flow through fresh containers)
+    ELEMENT_METHODS = ("get", "items", "values", "keys", "pop", "setdefault", "popitem", "copy_shallow")
+
+    def roots(self, expr: ast.AST, is_fresh: Optional[Callable[[ast.Call], bool]] = None,
+              call_summary: Optional[Callable[[ast.Call], Optional[List[ast.AST]]]] = None,
+              _seen: Optional[Set[int]] = None) -> List[Tuple[str, ast.AST]]:
+        """leaves ('param', arg) | ('call', Call unresolved) | ('free', Name): `expr` is an access path (subscripts, attributes,
+        element iteration, .get/.items/.values, resolved callees returning part of an argument) rooted there"""
+        seen = _seen if _seen is not None else set()
+        if id(expr) in seen:
+            return []
+        seen.add(id(expr))
+
+        def R(e):
+            return self.roots(e, is_fresh, call_summary, seen)
+        if isinstance(expr, ast.Name):
+            ds = self.rd.defs(expr)
+            if not ds:
+                return [("free", expr)]
+            out: List[Tuple[str, ast.AST]] = []
+            for d in ds:
+                if d.kind == "param":
+                    out.append(("param", d.stmt))
+                elif d.kind in ("assign", "walrus", "with", "aug", "unpack", "for", "comp"):
+                    if d.value is not None:
+                        v = d.value
+                        if d.kind == "unpack" and isinstance(v, (ast.Tuple, ast.List)) and d.index and len(d.index) == 1 and d.index[0] < len(v.elts):
+                            out.extend(R(v.elts[d.index[0]]))
+                        else:
+                            out.extend(R(v))
+            return out
+        if isinstance(expr, (ast.Subscript, ast.Attribute, ast.Starred)):
+            return R(expr.value)
+        if isinstance(expr, ast.IfExp):
+            return R(expr.body) + R(expr.orelse)
+        if isinstance(expr, ast.BoolOp):
+            out = []
+            for e in expr.values:
+                out.extend(R(e))
+            return out
+        if isinstance(expr, (ast.NamedExpr, ast.Await)):
+            return R(expr.value)
+        if isinstance(expr, ast.Call):
+            if is_fresh and is_fresh(expr):
+                return []
+            f = expr.func
+            srcs = call_summary(expr) if call_summary else None
+            if srcs is not None:
+                out = []
+                for a in srcs:
+                    out.extend(R(a))
+                return out
+            if isinstance(f, ast.Attribute) and f.attr in self.ELEMENT_METHODS:
+                return R(f.value)
+            if isinstance(f, ast.Name) and f.id in ("iter", "next", "reversed", "enumerate", "zip", "list", "tuple", "sorted", "filter", "map") and expr.args:
+                # views over their arguments' elements
+                out = []
+                for a in expr.args[-1:] if f.id in ("filter", "map") else expr.args:
+                    out.extend(R(a))
+                return out
+            return [("call", expr)]
+        return []
+
     def origin_calls(self, expr: ast.AST, through_calls: bool = True) -> List[ast.Call]:
         return [n for k, n in self.origins(expr, through_calls) if k == "call"]  # type: ignore[misc]
 
